@@ -57,6 +57,12 @@ pub fn rerun(line: &str) -> Option<String> {
         ["wasm", hx, ops] | ["wasmn", hx, ops] => Some(crate::wasmops::wasm_line(
             &String::from_utf8(unhex(hx)).ok()?, &crate::wasmops::parse(ops)?)),
         ["wasmqr", hx] => Some(crate::wasmops::wasmqr_line(&String::from_utf8(unhex(hx)).ok()?)),
+        ["buildbig", run, len, tail, e] => Some(crate::gen::buildbig_line(
+            u8::from_str_radix(run, 16).ok()?,
+            len.parse().ok()?,
+            if *tail == "-" { None } else { Some(u8::from_str_radix(tail, 16).ok()?) },
+            optn(e),
+        )),
         ["buildafterx", hx, e, m, v, k] => Some(crate::gen::buildafterx_line(
             &unhex(hx), crate::common::Opts { ecl: optn(e), mode: optn(m), version: optn(v), mask: optn(k) })),
         ["svgt", hx, e, m, v, k, ops] => Some(crate::gen::svgt_line(
